@@ -631,10 +631,16 @@ class SymEval:
         m2, c2, fn = found
         if m2 is not self.mod:
             raise Undecided(f'`{short(call, 60)}`: rule-name producer {meth} lives in another module')
-        body = [s for s in fn.body if not (isinstance(s, ast.Expr) and isinstance(s.value, ast.Constant))]
-        if len(body) != 1 or not isinstance(body[0], ast.Return) or body[0].value is None:
-            raise Undecided(f'rule-name producer {c2.name}.{meth} is not a single return expression')
+        # a producer may have several returns (if/elif chain, early returns): it yields the union of their shapes;
+        # which return is taken depends on run-time conditions the closure check does not need
+        rets = [x for x in walk_no_nested(fn, include_root=False) if isinstance(x, ast.Return)]
+        if not rets or any(x.value is None for x in rets):
+            raise Undecided(f'rule-name producer {c2.name}.{meth} has a path that returns no value')
+        if any(isinstance(x, (ast.Yield, ast.YieldFrom)) for x in walk_no_nested(fn, include_root=False)):
+            raise Undecided(f'rule-name producer {c2.name}.{meth} is a generator')
         info = self.infos.of(f'{c2.name}.{meth}', fn)
+        if info.cfg.exit_return.id in info.reach(info.cfg.entry, [n for r_ in rets for n in info.cfg.stmt_nodes(r_)]):
+            raise Undecided(f'rule-name producer {c2.name}.{meth} can fall off its end (returns None)')
         a = fn.args
         names = [x.arg for x in a.posonlyargs + a.args]
         if 'staticmethod' not in decorator_names(fn):
@@ -652,7 +658,17 @@ class SymEval:
                 if n not in defaults:
                     raise Undecided(f'`{short(call, 60)}`: parameter {n} of {meth} is not bound')
                 bind[n] = (defaults[n], None, None)
-        return self.shapes(body[0].value, Frame(info, bind), info.node_of(body[0].value), depth + 1, busy)
+        out: T.Set[Shape] = set()
+        callee = Frame(info, bind)
+        for r_ in rets:
+            nodes = info.cfg.stmt_nodes(r_)
+            if not nodes:
+                continue      # unreachable return
+            assert r_.value is not None
+            out |= self.shapes(r_.value, callee, nodes[0], depth + 1, busy)
+        if not out:
+            raise Undecided(f'rule-name producer {c2.name}.{meth}: no reachable return')
+        return out
 
     def _name(self, name: str, fr: Frame, at: T.Optional[Node], depth: int, busy: T.FrozenSet[T.Tuple[str, str, int]]) -> T.Set[Shape]:
         info = fr.info
